@@ -1,3 +1,5 @@
+import Fpdec.Kernels.Log
+import Fpdec.Kernels.Unops
 import Fpdec.Lemmas.Unary
 import Fpdec.Props.C15_Sites
 
@@ -56,5 +58,17 @@ theorem predicates_spec (d : Dec) (hd : Dom d) :
 example : magnitude Profile.dev ⟨0, 3⟩ = .ok 0 ∧ magnitude Profile.dev ⟨123, 5⟩ = .ok (-3) := by decide
 example : floor Profile.dev ⟨-25, 1⟩ = .ok ⟨-3, 0⟩ ∧ ceil Profile.dev ⟨-25, 1⟩ = .ok ⟨-2, 0⟩ ∧ ceil Profile.dev ⟨0, 2⟩ = .ok ⟨0, 0⟩ := by
   decide
+
+/-! ### translated kernels
+The Lean definitions `Gen.K.*` are regenerated from the Rust source on every run by `tools/fpkernels.py` (expression-level
+translation).  These theorems tie them to the hand-written model the property theorems above are about: a change of the Rust
+kernel that changes its translation breaks them. -/
+theorem kernel_div_floor (prof : Profile) (x y : Int) : Gen.K.div_floor prof x y = divFloorI128 prof x y :=
+  Kernels.div_floor_eq prof x y
+theorem kernel_div_ceil (prof : Profile) (x y : Int) : Gen.K.div_ceil prof x y = divCeilI128 prof x y :=
+  Kernels.div_ceil_eq prof x y
+/-- the magnitude kernel: no `u32` addition in it can overflow, in any profile -/
+theorem kernel_log10_u128 (prof : Profile) (val : Nat) (h : val < 340282366920938463463374607431768211456) :
+    Gen.K.u128 prof val = .ok (log10U128 val) := Kernels.u128_eq prof val h
 
 end Fpdec.Props.C15
